@@ -31,7 +31,7 @@ class CUQIarray(np.ndarray):
         # We first cast to be our class type
         obj = np.asarray(input_array).view(cls)
         # add the new attribute to the created instance
-        obj.is_par = is_par
+        obj.is_par = bool(is_par) # a plain bool: the conversions below compare it with True / False by identity (numpy booleans, 0 / 1 are accepted)
         if (not is_par) and (geometry is None):
             raise ValueError("geometry cannot be none when initializing a CUQIarray as function values (with is_par False).")
         if is_par and (obj.ndim>1):
